@@ -69,14 +69,14 @@ def plan(tier, seed):
         specs += [dict(seed=seed, shard="control-%d" % i, kind="control", n=20) for i in range(4)]
         specs += [dict(seed=seed, shard="rerun-%d" % i, kind="rerun", n=30) for i in range(4)]
         specs += [dict(seed=seed, shard="pending-%d" % i, kind="pending", n=10) for i in range(4)]
-        specs += [dict(seed=seed, shard="known", kind="known", n=2), dict(seed=seed, shard="mixed", kind="mixed", n=30), dict(seed=seed, shard="adopting", kind="adopting", n=20)]
+        specs += [dict(seed=seed, shard="known", kind="known", n=2), dict(seed=seed, shard="mixed", kind="mixed", n=30), dict(seed=seed, shard="adopting", kind="adopting", n=20), dict(seed=seed, shard="slowclean", kind="slowclean", n=4)]
     else:
         specs = [dict(seed=seed, shard="product-%d" % i, kind="product", part=i, parts=8, stride=9, repeat=1, n=1) for i in range(8)]
         specs += [dict(seed=seed, shard="random-%d" % i, kind="random", n=8) for i in range(6)]
         specs += [dict(seed=seed, shard="control-0", kind="control", n=6)]
         specs += [dict(seed=seed, shard="rerun-%d" % i, kind="rerun", n=6) for i in range(2)]
         specs += [dict(seed=seed, shard="pending-%d" % i, kind="pending", n=2) for i in range(3)]
-        specs += [dict(seed=seed, shard="known", kind="known", n=1), dict(seed=seed, shard="mixed", kind="mixed", n=3), dict(seed=seed, shard="adopting", kind="adopting", n=3)]
+        specs += [dict(seed=seed, shard="known", kind="known", n=1), dict(seed=seed, shard="mixed", kind="mixed", n=3), dict(seed=seed, shard="adopting", kind="adopting", n=3), dict(seed=seed, shard="slowclean", kind="slowclean", n=1)]
     del total
     return specs
 
@@ -272,6 +272,19 @@ def gen_adopting_case(rnd, spec):
             "meta": {"kind": "adopting", "fail": [["threading", "raise", "LookupError", "exception", "queued", True]], "meta_runner": False}}
 
 
+def gen_slowclean_case(rnd, spec):
+    """A failure beside a trio payload whose (bounded) cleanup takes 6 s: the run ends when that is done, and still raises
+    RuntimeError caused by the failure."""
+    flavour = ["threading", "asyncio"][spec.get("case_index", 0) % 2]
+    how, what = rnd.choice([("raise", "LookupError"), ("raise", "CustomWithArgs"), ("return", "str")])
+    gen = {"accept_delay": 0.03, "services": [], "grace": 0.2, "payloads": [
+        {"id": "flusher", "flavour": "trio", "when": "queued", "program": [["block"]], "cleanup": {"kind": "shielded", "dur": 6.0}},
+        {"id": "f0", "flavour": flavour, "when": "queued", "program": [["sleep", 0.2], [how, what]], "cleanup": {"kind": "none"}}],
+        "script": [["wait_running", 8], ["expect_end", 14.0]]}
+    return {"watchdog": 30, "inject": None, "generations": [gen],
+            "meta": {"kind": "slowclean", "fail": [[flavour, how, what, "exception", "queued", True]], "meta_runner": False}}
+
+
 def gen_mixed_case(rnd, spec):
     """Two payloads of one coroutine flavour fail in the very same scheduler tick (both wait on one event of their framework),
     one with an Exception or a return value, the other with a KeyboardInterrupt: a failure has happened, so the run raises."""
@@ -348,6 +361,8 @@ def judge(case, run, result):
             result.count("scenarios_without_observed_failure")
         return []
     result.count("scenarios_with_failure")
+    if case["meta"]["kind"] == "slowclean" and run.of("cleanup-done", gen=g, pid="flusher"):
+        result.count("failures_beside_a_trio_cleanup_of_6_s")
     if "executor_jobs" in case["generations"][g].get("tags", []) and run.of("start", gen=g, pid="exjob0"):
         result.count("failures_beside_asyncio_payloads_waiting_for_executor_jobs")
     if "cross" in case["generations"][g].get("tags", []) and run.of("call", gen=g, op="execute"):
@@ -417,7 +432,7 @@ def run_shard(spec):
         gen = lambda i, rep: gen_product_case(core.rng(PID, spec["seed"], "product", i, rep), items[i])  # noqa: E731
     else:
         todo = [(i, 0) for i in range(spec["n"])]
-        g = {"random": gen_random_case, "control": gen_control_case, "rerun": gen_rerun_case, "pending": gen_pending_case, "known": gen_known_case, "mixed": gen_mixed_case, "adopting": gen_adopting_case}[spec["kind"]]
+        g = {"random": gen_random_case, "control": gen_control_case, "rerun": gen_rerun_case, "pending": gen_pending_case, "known": gen_known_case, "mixed": gen_mixed_case, "adopting": gen_adopting_case, "slowclean": gen_slowclean_case}[spec["kind"]]
         gen = lambda i, rep: g(core.rng(PID, spec["seed"], spec["shard"], i), dict(spec, case_index=i))  # noqa: E731
     for i, rep in todo:
         cid = i * 10 + rep
@@ -434,7 +449,7 @@ def run_shard(spec):
 
 
 def finish(total, tier):
-    need = ["scenarios_with_failure", "scenarios_driving_metarunner_directly", "reruns_of_the_same_runner", "strong_clause_checked", "base_clause_checked", "failures_beside_asyncio_payloads_waiting_for_executor_jobs", "matched_exception", "matched_return", "control_scenarios",
+    need = ["scenarios_with_failure", "scenarios_driving_metarunner_directly", "reruns_of_the_same_runner", "strong_clause_checked", "base_clause_checked", "failures_beside_asyncio_payloads_waiting_for_executor_jobs", "failures_beside_a_trio_cleanup_of_6_s", "matched_exception", "matched_return", "control_scenarios",
             "failures_while_a_shutdown_request_was_pending", "failures_beside_trio_payloads_calling_into_asyncio"]
     need += ["reg_" + r for r in REGISTRATIONS] + ["flavour_" + f for f in common.FLAVOURS]
     for name in need:
